@@ -62,6 +62,23 @@ def families(tier):
             out.append(dict(prop='C10', family='c10.timeouts', id=f'c10/{shape}-p{tp}-c{tc}-s{int(second)}-k{k}-o{"".join(order)}', cfg=cfg,
                             params=dict(shape=shape, tp=tp, tc=tc),
                             scn=dict(buses={b: {} for b in names}, order=order, handlers=hs, main=main, actors=[], forwards=[], settle=2.0)))
+    # parallel_handlers: the awaited child has two concurrently running handlers when the parent's deadline lands
+    for cb, par_a, par_b, tp, tc in itertools.product('AB', (False, True), (False, True), (0.5,), (None, 1.0)):
+        if cb == 'A' and not par_a:
+            continue
+        if cb == 'B' and not par_b:
+            continue
+        names = ['A', 'B'] if cb == 'B' else ['A']
+        copt = {} if tc is None else {'timeout': tc}
+        hs = [dict(bus='A', pat='P', name='hp', prog=[('disp', cb, 'C', 'await', copt)]), dict(bus=cb, pat='C', name='hc1', prog=[('pause',), ('ret', 1)]),
+              dict(bus=cb, pat='C', name='hc2', prog=[('pause',), ('ret', 2)])]
+        for b in names:
+            hs.append(dict(bus=b, pat='X', name='hs' + b, prog=[('ret', 0)]))
+        main = [('disp', 'A', 'P', 'ff', {'timeout': tp}), ('pause',)] + [('disp', b, 'X', 'ff') for b in names] + [('idle', b) for b in names]
+        for order in ([names] if len(names) == 1 else [names, names[::-1]]):
+            out.append(dict(prop='C10', family='c10.timeouts_parallel', id=f'c10/par-c{cb}-pa{int(par_a)}-pb{int(par_b)}-p{tp}-c{tc}-o{"".join(order)}', cfg=cfg,
+                            params=dict(shape='par_child', tp=tp, tc=tc),
+                            scn=dict(buses={b: dict(parallel=(par_a if b == 'A' else par_b)) for b in names}, order=order, handlers=hs, main=main, actors=[], forwards=[], settle=2.0)))
     return out
 
 
